@@ -46,11 +46,11 @@ def main():
             tier = args.pop(0)
         elif ":" in a:
             prop, patch = a.split(":", 1)
-            items.append((prop, patch, prop + "-" + os.path.basename(os.path.dirname(patch))))
+            items.append((prop, os.path.abspath(patch), prop + "-" + os.path.basename(os.path.dirname(patch))))
         else:
             meta = json.load(open(os.path.join(a, "meta.json")))
             for prop in meta.get("checks", [meta["property"]]):
-                items.append((prop, os.path.join(a, "patch.diff"), os.path.basename(a.rstrip("/")) + "@" + prop))
+                items.append((prop, os.path.abspath(os.path.join(a, "patch.diff")), os.path.basename(a.rstrip("/")) + "@" + prop))
     with cf.ThreadPoolExecutor(jobs) as ex:
         futs = [ex.submit(run_one, p, pa, tier, lab) for p, pa, lab in items]
         for f in cf.as_completed(futs):
